@@ -95,6 +95,7 @@ def density(rnd):
 
 class H(Harness):
     ID = 'C15'
+    ANCHOR_FILES = ['epydemic/generator.py', 'epydemic/standard_generators.py', 'epydemic/plc_generator.py', 'epydemic/coreperiphery_generator.py', 'epydemic/modular_generator.py', 'epydemic/networkexperiment.py']
     TIE_IMPORT = 'From EpyV Require Import Model.Shuffle Model.Generators Tie.C15.'
     CHECK_FN = 'EpyV.Tie.C15.check_case'
     QUICK_N = 1360
